@@ -173,6 +173,7 @@ contract('main', float_mode='fp64', heap=list(FIELDS), class_module={'Parser': '
          call_asserts={'write_robots': ["file_name == " + NAME.format(a='AR')] + [c.replace(A_, 'AR') for c in ARGS_OK]
                        + ["length == AR.length", "width == AR.width"]},
          ghost_args={}, alias_for_asserts={'AR': 'parsed_args'},
+         calls_exactly=['init_parser', 'Parser.parse_args', 'check_input', 'gen_rnd_board'] + ['prob_to_str'] * 4 + ['write_robots'],
          props=['C15', 'C17', 'C11'])
 
 # ------------------------------------------------------------------ the nine transition builders (C08, C11): positional contracts
@@ -389,5 +390,6 @@ contract('write_robots',
                        'write_robot_B': _SAME_BOARD + ["prob_tile_break == c_tb", "prob_robot_break == c_rb"],
                        'write_robot_C': _SAME_BOARD + ["prob_tile_break == c_tb", "prob_robot_break == c_rb", "prob_light_break == c_lb"],
                        'write_preamble': _SAME_BOARD},
+         calls_exactly=['write_preamble', 'write_robot_A', 'write_robot_B', 'write_robot_C'],
          list_eq_structural=True,
          props=['C08', 'C11'])
